@@ -107,3 +107,42 @@ def run(max_dev=3):
 if __name__ == '__main__':
     n, m = run()
     print(n, m)
+
+
+
+def run_mixed():
+    """registries that mix numeric and string values (idx and a reference field): a lookup finds a device only through a value that
+    is equal to the stored one as a Python object (1 is not '1'); returns (n_cases, first mismatch or None)"""
+    import logging
+    from andes.core import ModelData, IdxParam
+    from andes.models.group import GroupBase
+    logging.getLogger('andes').setLevel(logging.CRITICAL)
+
+    class D(ModelData):
+        def __init__(self):
+            super().__init__()
+            self.bus = IdxParam()
+    n = 0
+    for idxs, buses in (([1, 'G4', 2, 'x1'], [10, 'b2', 'b2', 11]), (['BusFreq_1', 'BusFreq_2', 101], [1, 2, 9]), ([5, 6], ['a', 5])):
+        m = D()
+        m.class_name = 'A'
+        g = GroupBase()
+        for i, b in zip(idxs, buses):
+            m.add(idx=i, bus=b)
+            g.add(i, m)
+        g.add_model('A', m)
+        for key, stored in (('idx', idxs), ('bus', buses)):
+            for q in list(stored) + [str(x) for x in stored if not isinstance(x, str)] + ['nope', 12345]:
+                hits = [idxs[k] for k in range(len(idxs)) if stored[k] == q and type(stored[k]) is type(q)]
+                want = [hits[0]] if hits else [None]
+                for holder, label in ((m, 'ModelData'), (g, 'GroupBase')):
+                    n += 1
+                    try:
+                        got = list(holder.find_idx(key, [q], allow_none=True, default=None))
+                    except Exception as e:      # noqa
+                        got = repr(e)
+                    if got != want:
+                        return n, {'registry idx': idxs, 'registry bus': buses,
+                                   'call': "%s.find_idx(%r, [%r], allow_none=True, default=None)" % (label, key, q),
+                                   'observed': repr(got), 'expected': repr(want)}
+    return n, None
